@@ -470,6 +470,12 @@ func verifC14_ClientSubscriptions() {
 		verifCover("malformed-subscribe")
 	}
 	c1.script = append(c1.script, second)
+	// the first filter may be subscribed once more, with the other QoS: the later SUBSCRIBE counts
+	if !malformed && verifBool("firstFilterSubscribedAgainWithTheOtherQoS") {
+		q1 = 1 - q1
+		c1.script = append(c1.script, vSubscribePacket(4, []string{"a/1"}, []byte{q1}))
+		verifCover("re-subscribed-with-another-qos")
+	}
 	go b.handleConn(c1)
 	verifQuiesce()
 	verifAssert(c1.connack == int(packets.Accepted), "connected")
